@@ -1621,6 +1621,9 @@ func (m *Dot11InformationElement) DecodeFromBytes(data []byte, df gopacket.Decod
 		df.SetTruncated()
 		return fmt.Errorf("Dot11InformationElement length %v too short, %v required", len(data), 2)
 	}
+	// OUI and ExtensionID are only present for some element IDs: do not
+	// keep those of an earlier decode
+	*m = Dot11InformationElement{}
 	m.ID = Dot11InformationElementID(data[0])
 	m.Length = data[1]
 	offset := int(2)
